@@ -177,10 +177,10 @@ _CRYPTO_NOTE = ("Trusted: Lean kernel (+ Mathlib's AddCommGroup/Module for the a
 PROPS["C10"] = dict(
     level="proof",
     technique="Lean 4 theorems in an arbitrary lawful abelian group: the model of KeyGenerator::from_key/from_random equals 8•(a•B) for every point incl. torsion, sender/receiver commute, one-time keys recognised; counterexample for the pinned scalar-times-8 formula; torsion-augmented differential check vs the Lean reference curve",
-    level_text="C10_derivation: derive a B = 8•(a•B) for every point B (torsion component removed: C10_derivation_torsion); C10_sender_receiver; C10_onetime_recognised / C10_view_tag_recognised (the by-the-book sender's key and tag are what the receiver computes); C10_scalar8_agrees_on_torsion_free + C10_scalar8_counterexample document the defect repaired by the fix commit (the pinned formula (8a mod l)•B differs on a point of order 8). Every test key is used 9 times (as is and plus each of the 8 small-order points) against model, by-the-book spec on the reference curve, and dalek's mul_by_cofactor.",
+    level_text="C10_derivation: derive a B = 8•(a•B) for every point B (torsion component removed: C10_derivation_torsion); C10_sender_receiver; C10_onetime_recognised / C10_view_tag_recognised (the by-the-book sender's key and tag are what the receiver computes); C10_scalar8_agrees_on_torsion_free + C10_scalar8_counterexample document the defect repaired by the fix commit (the pinned formula (8a mod l)•B differs on a point of order 8 - in the toy group Z/(8l) AND on Ed25519 itself: C10_scalar8_counterexample_ed25519 with T8 = the accepted key of order exactly 8, C10_eight_torsion_points_ed25519). C10_constructors / C10_sender_receiver_split: from_random and from_key are two model functions (deriveSender / deriveReceiver), each proved to be 8•(a•B); C10_check_iff / C10_check_accepts_sender_key / C10_check_rejects_shifted: model of KeyGenerator::check; C10_no_subgroup_check / C10_derivation_bytes: from the accepted 32 bytes to the group element, and the executable driver instance prints exactly its encoding (C10_driver_refines). Every test key is used 9 times (as is and plus each of the 8 small-order points) against model, by-the-book spec on the reference curve, and dalek's mul_by_cofactor.",
     level_note=_CRYPTO_NOTE,
     design_ref="DESIGN.md §6 C10, §7 item 1",
-    rule="300 (quick) / 2000 (thorough) keys x 9 torsion variants, scalars random/0/1/l-1, one-time keys with torsion on R, V, S; malformed operands.",
+    rule="300 (quick) / 2000 (thorough) keys x 9 torsion variants, scalars random/0/1/l-1/small/near-l/ceil(j*l/8) and the scalar below it, one-time keys with torsion on R, V, S; per key also: sender constructor on V+T (T of any order, independent of the scalar stratum), get_rvn_scalar, receiver key and KeyGenerator::check (right key + one wrong key: position n+-1, key+T, other spend key, negated key) with an independent spend key and independent torsion on R and S; families: two wallets sharing the spend key (from_key, from_random, SubKeyChecker::check consecutively), scalars of every top byte 0x00..0x0f x 8 torsion points, long-then-short output indices on the same keys; wire keys of wrong length; malformed operands. Statistic c10.formulas-differ counts the cases that separate (8a mod l)B from 8(aB).",
     assumptions=["curve25519-dalek computes the same functions as Ref/Ed25519.lean (differential tie); that Ref/Ed25519.lean is the Ed25519 group law is proved (edOps_lawful)"],
     gen_items=["mulFactor"],
 )
@@ -188,10 +188,10 @@ PROPS["C10"] = dict(
 PROPS["C09"] = dict(
     level="proof",
     technique="Lean 4 theorems in an arbitrary lawful group: recovered secret = Hs(8vR ‖ n) + s' and its public key is the sender-built one-time key, for primary and subaddress destinations; differential check vs reference curve and an independent dalek sender",
-    level_text="C09_recover_value (recover = (Hs(enc(8•(v•R)) ‖ varint n) + s') mod l with s' the subaddress spend secret), C09_recover_matches_scan (for every R, recover•G is the key the scanner matched), C09_recover_pub (for honest senders, recover•G = the by-the-book one-time key, primary and subaddress), C09_recover_reduced. Wallets x positions (127/128/16383/16384/2^21 boundaries) x indices with zero components, also with torsion on the tx key.",
+    level_text="C09_recover_value (recover = (Hs(enc(8•(v•R)) ‖ varint n) + s') mod l with s' the subaddress spend secret), C09_recover_matches_scan (for every R, recover•G is the key the scanner matched), C09_recover_pub (for honest senders, recover•G = the by-the-book one-time key, primary and subaddress), C09_recover_reduced; C09_owned_recover(_all_apis): for EVERY output the scan model (C07) reports, the model of OwnedTxOut::recover_key (Owned.recoverKey) returns a reduced x with from_private_key(x) = that output's one-time key; C09_recoverer_object (KeyRecoverer as a two-step object has no state beyond (v, s, rv)); C09_recover_value_bounded (nothing is truncated on u32/u64/32-byte inputs); C09_driver_refines (the driver instance computes the scalars of the _ed25519 theorems). Wallets x positions (127/128/16383/16384/2^21 boundaries) x indices with zero components, also with torsion on the tx key.",
     level_note=_CRYPTO_NOTE,
     design_ref="DESIGN.md §6 C09",
-    rule="10 (quick) / 100 (thorough) wallets x 10 positions x 5 indices, every 5th case with a torsioned tx key.",
+    rule="10 (quick) / 100 (thorough) wallets x 10 positions x 6 indices ((0,0), small one-zero-component, small, byte-boundary, (0,big)/(big,0)), every 5th case (rotating through the index families) plus a 1-in-12 coin with a torsioned tx key; per wallet 2 sequences of 11 recoveries on ONE KeyRecoverer (c09_recover_seq) and the same queries consecutively; 40 / 300 scanner scenarios (positions beyond 128 / 300 / 16384, thorough also 70000; a third with all subaddress indices shifted to byte / sign-bit boundaries); 8 / 60 whole transactions with honest keys and keys moved by a small-order point through Transaction::check_outputs + recover_key (c09_scan_tx), half of them after a failing scan.",
     assumptions=["curve25519-dalek computes the same functions as Ref/Ed25519.lean (differential tie); that Ref/Ed25519.lean is the Ed25519 group law is proved (edOps_lawful)"],
     gen_items=["mulFactor", "subaddrSalt"],
 )
@@ -199,10 +199,10 @@ PROPS["C09"] = dict(
 PROPS["C11"] = dict(
     level="proof",
     technique="Lean 4 theorems in an arbitrary lawful group for the public- and secret-side subaddress derivations, the hashed preimage and its injectivity in (i,j), the address; distinctness reduced to a named hash assumption; stratified differential check on 3 networks",
-    level_text="C11_keys_are_monero / C11_keys_are_spec (S' = S + Hs(\"SubAddr\\0\"‖v‖i‖j)•G, V' = v•S', and the secret counterparts), C11_public_secret_agree (public keys = G times secret keys), C11_zero_index, C11_single_zero_component_is_not_zero, C11_preimage (message layout, 48 bytes, injective in (i,j) below 2^32), C11_address (SubAddress-type address of those keys on the requested network, text = C12 spec text). C11_distinct_keys_partial: distinct indices give distinct keys PROVIDED Hs does not collide on the two (distinct) preimages and G has order exactly l - the cryptographic assumption no proof can discharge.",
+    level_text="C11_keys_are_monero / C11_keys_are_spec (S' = S + Hs(\"SubAddr\\0\"‖v‖i‖j)•G, V' = v•S', and the secret counterparts), C11_public_secret_agree (public keys = G times secret keys), C11_zero_index, C11_single_zero_component_is_not_zero, C11_preimage (message layout, 48 bytes, injective in (i,j) below 2^32), C11_address (SubAddress-type address of those keys on the requested network, text = C12 spec text). C11_secret_reduced, C11_secret_keys_pair (get_secret_keys, order of the pair); C11_distinct_keys_or_collision(_ed25519): for distinct 32-bit indices other than (0,0) the 48-byte messages differ and EITHER Hs collides on them OR spend keys, encodings, spend secrets, address texts and (v != 0 mod l) view keys are all distinct - on Ed25519 without any hypothesis about the group; C11_driver_refines. C11_distinct_keys_partial: distinct indices give distinct keys PROVIDED Hs does not collide on the two (distinct) preimages and G has order exactly l - the cryptographic assumption no proof can discharge.",
     level_note=_CRYPTO_NOTE + " Observation (DESIGN.md §8): at index (0,0) get_subaddress prints a SubAddress-typed address of the primary keys, as the property's letter says; Monero's wallet prints the Standard address there.",
     design_ref="DESIGN.md §6 C11",
-    rule="20 (quick) / 120 (thorough) wallets x 49 stratified indices (0, 1, 0xff, 0x100, 0xffff, 0x10000, u32::MAX per side) x networks (all four in Rust, rotating through Lean).",
+    rule="20 (quick) / 120 (thorough) wallets x (49 stratified indices (0, 1, 0xff, 0x100, 0xffff, 0x10000, u32::MAX per side) + 5 fixed indices at the 3rd/4th byte and sign-bit boundaries) x networks (all four in Rust, rotating through Lean); get_secret_scalar directly on half of the grid, get_secret_keys on a sixth; pairwise distinctness of keys / secrets / texts per wallet; per wallet 11 spend keys outside {s*G} (8 small-order components, identity, S' = identity, S' = T1) and s = -m; secret side in the shared-component family; the crate's own (2,18) vectors as literals.",
     assumptions=["collision-freeness of Hs on the 48-byte preimages (for distinctness only)"],
     gen_items=["subaddrSalt", "network."],
 )
